@@ -31,6 +31,70 @@ def gen_restart(parent):
                     yield ({"parent": parent, "init": init, "react": react, "start": S1, "events": ev_, "restart": S2}, True)
 
 
+def _nested_work(parents):
+    """start_at of one chart from inside an entry action of another chart's start_at (two processor objects)"""
+    from mc import charts, refmodel
+    from mc.charts import Table, use, new_host, ENTRY, FAMILIES
+    from mc.common import BudgetExceeded
+    n_runs = 0
+    viol = []
+    p2 = (-1, 0, 1)
+    want2 = [("entry", 0), ("entry", 1), ("entry", 2), ("init", 2)]
+    for parent in parents:
+        for base, _ in gen(parent):
+            log_ref, rest = refmodel.start_at(parent, base["init"], base["start"])
+            entered = [x[1] for x in log_ref if x[0] == "entry"]
+            for k in entered:
+                for host, fam in VARIANTS_ALL:
+                    n_runs += 1
+                    t2 = Table(p2)
+                    t2.S = FAMILIES[fam]
+                    kw = {"instrumented": False} if (host == "queued" and fam == "plain") or host == "queued_off" else {}
+                    h2 = new_host(host, **kw)
+                    h2.mc_table = t2
+                    t1 = Table(parent, init=base["init"], act={(k, ENTRY): [("call", lambda chart, h2=h2, t2=t2: h2.start_at(t2.S[2]))]})
+                    use(t1, fam)
+                    h1 = new_host(host, **kw)
+                    try:
+                        h1.start_at(t1.S[base["start"]])
+                        got1 = [x for x in t1.log if x[0] != "empty"]
+                        got2 = [x for x in t2.log if x[0] != "empty"]
+                        st1, st2 = charts.config_of(h1), charts.config_of(h2)
+                        bad = None
+                        if got1 != log_ref or st1 != rest:
+                            bad = ("outer", "the chart being started logged %r and rests in %r, expected %r and %r" % (got1, st1, log_ref, rest))
+                        elif got2 != want2 or st2 != 2:
+                            bad = ("inner", "the chart started from the entry action logged %r and rests in %r, expected %r and 2" % (got2, st2, want2))
+                    except (Exception, BudgetExceeded) as e:  # noqa
+                        bad = ("exception", "%s: %s" % (type(e).__name__, e))
+                    if bad:
+                        key = "C03/nested-start/%s" % bad[0]
+                        if sum(1 for v in viol if v[0] == key) < 2:
+                            viol.append((key, "start_at(%d) of %r/init %r on host %s/%s with the entry action of state %d starting a second chart: %s" % (
+                                base["start"], parent, base["init"], host, fam, k, bad[1]),
+                                {"nested": True, "parent": list(parent), "init": {str(a): b for a, b in base["init"].items()},
+                                 "start": base["start"], "k": k}))
+    return n_runs, viol
+
+
+def nested_part(res, tier):
+    from mc.common import pmap, ncpu, Violation
+    N = 4 if tier == "quick" else 5
+    fl = [f for n in range(1, N + 1) for f in F.forests(n)]
+    chunks = [fl[i::ncpu() * 2] for i in range(ncpu() * 2)]
+    n = 0
+    for runs, viol in pmap(_nested_work, [c for c in chunks if c], ncpu()):
+        n += runs
+        for key, what, w in viol:
+            if sum(1 for x in res.violations if x.key == key) < 2:
+                res.add(Violation(key, what, w))
+    res.coverage["nested_start_part"] = {"runs": n, "forests_upto": N,
+                                         "rule": "every C03 scenario on forests<=%d x every state entered x 5 hosts: that state's entry action starts a "
+                                                 "second chart (another processor object); both charts must log and rest as if started alone" % N}
+    res.coverage["evaluations"] = res.coverage.get("evaluations", 0) + n
+    res.coverage["traces_validated_against_impl"] = res.coverage["evaluations"]
+
+
 def run(tier):
     res = Result(PID)
     N, nh, maxd = (9, 7, 14) if tier == "quick" else (10, 8, 16)
@@ -43,6 +107,7 @@ def run(tier):
                 (gen, small, VARIANTS_ALL[1:], [None, mixed_style]),
                 (gen, spine_f, VARIANTS_ALL[:2], [None]),
                 (gen_restart, [f for f in allf if len(f) <= (5 if tier == "quick" else 6)], VARIANTS_ALL, [None])])
+    nested_part(res, tier)
     res.coverage.update({
         "rule": "every (forest shape<=%d states, start state, init chain below it) x hosts; non-trivial = nested "
                 "start state or non-empty init chain; spine charts depth 9..%d; plus restarts of the same chart object (start at S1, "
@@ -54,4 +119,13 @@ def run(tier):
 
 
 def replay(witness):
+    if witness.get("nested"):
+        from mc.common import Violation
+        res = Result(PID)
+        parent = tuple(witness["parent"])
+        runs, viol = _nested_work([parent])
+        for key, what, w in viol:
+            print(key, what)
+            res.add(Violation(key, what, w))
+        return res
     return replay_generic(PID, witness)
